@@ -171,7 +171,7 @@ func init() {
 		stubs:     []string{"TS application handlers (proxied to the Go app node)", "the hosting framework's route matcher (segment-wise template match in the bridge)"},
 	}
 	props["C09"] = &propCfg{
-		id: "C09", level: "exploration", design: "DESIGN.md §4 C09", needTS: true, modes: []string{"headers"},
+		id: "C09", level: "exploration", design: "DESIGN.md §4 C09", needTS: true, modes: []string{"headers", "openapi-headers"},
 		quick: tierCfg{worlds: 10, batchSize: 16, checks: 200, timeoutS: 240},
 		thor:  tierCfg{worlds: 80, batchSize: 40, checks: 1000, timeoutS: 1800},
 		genCfg: func(seed uint64, name string) gen.Config {
